@@ -195,9 +195,12 @@ def replay_c(src, entry, sizes, model, files, timeout=180, rtol=1e-6):
         return None, f'no replay driver: {ex}'
     e = entry.lower()
     plain = ', '.join(a.split('=')[0] for a in args)
+    # modules of the source that only define types / constants (header modules): the drivers declare variables of them
+    tmods = [m.name for m in p1.modules if not any(r.name.lower() == e for r in m.subroutines)]
 
     def driver(call, uses=''):
-        lines = ['program rp', '  use iso_fortran_env'] + ([uses] if uses else []) + ['  implicit none'] + decl
+        lines = ['program rp', '  use iso_fortran_env'] + [f'  use {m}' for m in tmods] + ([uses] if uses else []) + \
+            ['  implicit none'] + decl
         if not uses:
             lines.append(f'  external :: {e}')
         lines += init + [call]
@@ -220,7 +223,11 @@ def replay_c(src, entry, sizes, model, files, timeout=180, rtol=1e-6):
         p = _run(['gcc', '-O0', '-c', f'{e}_c.c', '-o', 'kern_c.o', '-fsanitize=address,undefined', '-fno-sanitize-recover=all', '-g'], d, timeout)
         if p.returncode != 0:
             return True, f'generated C kernel does not compile: {p.stderr[-300:]}'
-        p = _run(['gfortran', '-O0', '-ffree-line-length-none', f'{e}_fc.F90', 'drv.F90', 'kern_c.o', '-o', 'a.out', '-lm',
+        extra = []
+        if tmods:
+            Path(d, 'prog.F90').write_text(src + '\n')      # the type modules the wrapper and the driver use
+            extra = ['prog.F90']
+        p = _run(['gfortran', '-O0', '-ffree-line-length-none'] + extra + [f'{e}_fc.F90', 'drv.F90', 'kern_c.o', '-o', 'a.out', '-lm',
                   '-fsanitize=address,undefined'], d, timeout)
         if p.returncode != 0:
             return True, f'generated ISO-C wrapper does not build against the original call: {p.stderr[-400:]}'
